@@ -334,8 +334,11 @@ class Vi:
             return key, r, o
         if key in "{}":
             for _ in range(cnt):
-                r = self.paragraph(1 if key == "}" else -1, r)
+                r2 = self.paragraph(1 if key == "}" else -1, r)
                 o = 0
+                if r2 == r:
+                    break           # at the first / last line: further repetitions change nothing
+                r = r2
             return key, r, 0
         if key == "0":
             return key, r, 0
@@ -488,7 +491,7 @@ class ViEd(Vi):
             return f[a:b] if a <= b else ""
         if r1 == r2:
             return sub(r1, o1, o2)
-        return sub(r1, o1, -1) + "".join(self.ln[r] + "\n" for r in range(r1 + 1, r2) if 0 <= r < len(self.ln)) + sub(r2, 0, o2)
+        return sub(r1, o1, -1) + "".join(self.ln[r] + "\n" for r in range(max(r1 + 1, 0), min(r2, len(self.ln)))) + sub(r2, 0, o2)
 
     def set_lines(self, r1, r2, text):
         """replace lines r1..r2 (inclusive) by the lines of text (None: delete)"""
@@ -591,9 +594,7 @@ class ViEd(Vi):
             self.after()
             return True
         if op in ("<", ">"):
-            for r in range(r1, r2 + 1):
-                if not (0 <= r < len(self.ln)):
-                    continue
+            for r in range(max(r1, 0), min(r2 + 1, len(self.ln))):
                 l = self.ln[r]
                 if op == ">":
                     if l != "":
